@@ -126,6 +126,8 @@ def render(prog, observer=True):
                     if it.get("via"):
                         line += " via %s" % it["via"]
                     L.append(line)
+                elif t == "under":
+                    L.append("    under %s" % it["frame"])
                 elif t == "go":
                     line = "    go %s" % it["far"]
                     if it["needs"]:
@@ -193,7 +195,7 @@ def ref_shares(fdef, frame):
     seen = {c: 0 for c in CTXS}
     objs = act_objects(frame)
     for i, it in enumerate(fdef["items"]):
-        if it["t"] == "aux":
+        if it["t"] in ("aux", "under"):
             continue
         ctx = "precur" if it["t"] == "go" else it["ctx"]
         lst = objs[ctx]
@@ -462,6 +464,8 @@ def encode(prog):
             for it in f["items"]:
                 if it["t"] == "aux":
                     t += ["x", it["of"], enc(it.get("as")), enc(it.get("via") or "")]
+                elif it["t"] == "under":
+                    t += ["u", it["frame"]]
                 elif it["t"] == "go":
                     t += ["g", it["far"], str(len(it["needs"]))]
                     for n in it["needs"]:
@@ -529,6 +533,29 @@ def gen_body(rng, name, letter, later, is_host, shared_reads):
         frames.append(f)
         kids.append(f)
     first = kids[0]
+    entry = first["name"]              # the framer's first frame: a child, or an over frame that descends to its primary under
+    subs = []
+    if nested:
+        top = frames[0]
+        if len(kids) >= 2 and rng.random() < 0.55:
+            # `under`: the primary under of the over frame is not (necessarily) the lexically first child
+            top["items"].append({"t": "under", "frame": rng.choice(kids[1:] if rng.random() < 0.8 else kids)["name"]})
+            if rng.random() < 0.2:     # a second `under` overwrites the first
+                top["items"].append({"t": "under", "frame": rng.choice(kids)["name"]})
+        if rng.random() < 0.35:
+            entry = top["name"]
+        if rng.random() < 0.3:
+            # a third level: two frames in one child, again with an optional `under`
+            k = rng.choice(kids)
+            for x in "yz":
+                sf = {"name": k["name"] + x, "over": k["name"], "via": rng.choice(VIAS_FRAME), "items": base_items()}
+                frames.append(sf)
+                subs.append(sf)
+            if rng.random() < 0.6:
+                k["items"].append({"t": "under", "frame": subs[1]["name"]})
+            if rng.random() < 0.5:
+                subs[0]["items"].append({"t": "go", "far": rng.choice([subs[1]["name"], k["name"], top["name"]]),
+                                         "needs": [{"k": "re", "op": ">=", "v": rng.choice([1, 2])}]})
     tags = []
     counted = rng.random() < 0.7
     if counted:
@@ -594,9 +621,13 @@ def gen_body(rng, name, letter, later, is_host, shared_reads):
                 f["items"].append({"t": "go", "far": far,
                                    "needs": [gen_need(rng, tags, has_aux, counted, shared_reads)] if rng.random() < 0.8 else
                                    [{"k": "re", "op": ">=", "v": 2}]})
+        if nested and rng.random() < 0.2:
+            # to an over frame: the outline descends from it through the primary unders
+            f["items"].append({"t": "go", "far": rng.choice([frames[0]["name"]] + [g["name"] for g in kids]),
+                               "needs": [{"k": "re", "op": "==", "v": rng.choice([2, 3])}]})
         if rng.random() < 0.3:
             rng.shuffle(f["items"])
-    return frames, kids[0]["name"]
+    return frames, entry
 
 
 def gen_prog(rng):
@@ -819,10 +850,12 @@ class CHECK(core.Check):
     N_QUICK = 80
     N_THOROUGH = 1200
     N_SEARCH = 60
-    RULE = ("generated programs: 1-2 active hosts (a top frame with 2-4 child frames, looping transitions on recurred / "
+    RULE = ("generated programs: 1-2 active hosts (a top frame with 2-4 child frames, optionally a third level, the `under` "
+            "verb choosing a primary under that is not the lexically first child, first frames and transitions that name over "
+            "frames and descend to their primary unders, looping transitions on recurred / "
             "elapsed / share / all|any|aux TAG is done) that clone 1-3 moot framers with named tags and `mine`, via none / "
             "mine / two inodes, rear them into sibling frames and raze all|first|last; moots (1-3 frames, optional over "
-            "frame, framer and frame inodes) that clone, rear and raze later moots, count in framer- and frame-relative "
+            "frame with `under`, optional third level, framer and frame inodes) that clone, rear and raze later moots, count in framer- and frame-relative "
             "shares, write to inode-relative and absolute shares, use an actor-relative ioinit, say `done me`; every frame "
             "records enter / recur / exit; 15 % of the programs also read shared (non-relative) data; 10 % carry one script "
             "error (duplicate tag, unknown / non-moot original, unknown tag in a need, bad rear frame, bad first, clone "
@@ -833,8 +866,8 @@ class CHECK(core.Check):
                "(driver engine 'clones')",
                "clause text -> relative path (Builder.parseIndirect) is taken from C13; tokenizer C16; literals C17",
                "CPython copy.deepcopy, odict order, str.join/split"]
-    PARTIAL = ["C12_clone_runs_like_original_partial / C12_leaf_refines_partial / C12_leaf_refines_checkStart_partial: the "
-               "behavioural clause is proved for framer objects WITHOUT auxiliaries below them whose script has no rear / "
+    PARTIAL = ["C12_clone_runs_like_original_partial / C12_clone_history_like_original_partial / C12_leaf_refines_partial / "
+               "C12_leaf_history_refines_partial / C12_leaf_refines_checkStart_partial: the behavioural clause is proved for framer objects WITHOUT auxiliaries below them whose script has no rear / "
                "raze / aux-done need (decidable: Frame.leafy) and whose resolution map is injective (true of framer-, frame- "
                "and actor-relative references: C12_prefix_map_resolves); for such an object every entry point enterAll / "
                "recur / segue / exitAll / checkStart is shown equal to a name-free stand-alone interpreter, so a clone and "
@@ -853,7 +886,7 @@ class CHECK(core.Check):
                "generated run by the correspondence - X / N lines - and by oracle O3)",
                "the model keeps integer `value` fields only; the CloneError branches of Frame.clone / Act.clone for already "
                "resolved links are folded into one test (unreachable: only moots are cloned and moots are never resolved); "
-               "conditional auxiliaries, beacts, bids, slaves and `under` are not in the modelled subset (a clone cannot be "
+               "conditional auxiliaries, beacts, bids and slaves are not in the modelled subset (a clone cannot be "
                "a conditional auxiliary)",
                "D5 (a moot that clones itself; C14) is fixed in /repo: resolveMoots refuses it with ResolveError (the lineage "
                "test is in the model; generated as malformed kinds self-clone / clone-loop); a reared clone starts with an "
@@ -865,17 +898,24 @@ class CHECK(core.Check):
                   "C12_relative_paths_disjoint (two framer objects with different names never resolve framer-/frame-/actor-"
                   "relative references to one path, any contexts, inodes, references), C12_relative_path_is_substituted (the "
                   "clone's path is the original's with the name segment substituted); what a clone is - "
-                  "C12_frame_clone_copies_script, C12_frame_clone_of_unresolved, C12_clone_copies_definition, "
+                  "C12_frame_clone_copies_script, C12_frame_clone_of_unresolved, C12_clone_same_frame_forest (over / under / "
+                  "next names copied, so resolveOverLinks and every outline are computed from the same input), "
+                  "C12_clone_copies_definition, "
                   "C12_clone_fails_iff; names - C12_clone_registers_fresh_name, C12_clone_keeps_names_distinct, "
                   "C12_new_tag_fresh (newMootTag / newAuxTag), C12_surname_of_clone / _of_original, "
-                  "C12_name_parts_injective; rear - C12_rear_creates_fresh_insular_razeable (fresh tag, free name surname_tag, "
+                  "C12_name_parts_injective; static clones - C12_static_clone_created (one entry of resolveMoots: moot original not in "
+                  "the lineage, unused tag, free name surname_tag, copy flagged clone, insular only for `as mine`, never "
+                  "razeable, inode rule `via mine`, lineage extended, queued, nothing else touched); rear - "
+                  "C12_rear_creates_fresh_insular_razeable (fresh tag, free name surname_tag, "
                   "copy of the original flagged clone+insular+razeable, fixed main frame, appended to the frame, nothing else "
                   "touched); raze - C12_raze_selects_only_razeable_insular, C12_raze_all_first_last, C12_unregister_frees_name, "
                   "C12_pruned_name_freed, C12_freed_name_reusable, and PARTIAL (clones without auxiliaries below them) "
                   "C12_raze_leaf_clones_partial (exact effect on the whole house), C12_prune_leaf_clone_partial; behaviour "
                   "(PARTIAL: framer objects without auxiliaries below them) - C12_leaf_refines_partial, "
-                  "C12_leaf_refines_checkStart_partial, C12_clone_runs_like_original_partial, C12_same_events, "
-                  "C12_situation_stable, C12_leaf_touches_only_itself, C12_prefix_map_resolves. Tied to the code by building "
+                  "C12_leaf_refines_checkStart_partial, C12_clone_runs_like_original_partial, C12_leaf_history_refines_partial, "
+                  "C12_clone_history_like_original_partial (any history of calls and clock ticks: same events, same relative "
+                  "shares, same control state), C12_same_events, C12_situation_stable, C12_leaf_touches_only_itself, "
+                  "C12_leaf_clones_do_not_interfere, C12_distinct_names_disjoint, C12_prefix_map_resolves. Tied to the code by building "
                   "and running generated clone / rear / raze programs with the real Builder and Skedder and comparing every "
                   "line with the Lean interpreter; the oracle rebuilds each program with a clone replaced by its original as "
                   "an ordinary auxiliary and demands identical traces.")
